@@ -1,4 +1,7 @@
-CONSTANT Buggy = TRUE
+CONSTANTS
+  Buggy = TRUE
+  MaxNameLen = 2
+  FMaxLen = 7
 INIT InitNames
 NEXT Next
 INVARIANT RefOK
